@@ -5,6 +5,7 @@ open TdModel TdModel.C29
 def parseAct (w : String) : Option Action :=
   match w.splitOn ":" with
   | ["kill"] => some .kill
+  | ["killw"] => some .killw
   | ["init"] => some .init
   | ["bind", r] => r.toNat?.map .bind
   | ["reconnect"] => some .reconnect
@@ -18,6 +19,7 @@ def parseAct (w : String) : Option Action :=
   | ["arr", r, k] => do some (.arr (← r.toNat?) (← k.toNat?))
   | ["ack", r, k] => do some (.ack (← r.toNat?) (← k.toNat?))
   | ["res", r, k] => do some (.res (← r.toNat?) (← k.toNat?))
+  | ["rd", r, k] => do some (.rd (← r.toNat?) (← k.toNat?))
   | _ => none
 
 def showPhase (q : Req) : String :=
